@@ -257,7 +257,7 @@ Lemma browser_cache_records_srv now j : forall rs nms nulls w, SrvInv w -> SrvIn
 Proof.
   induction rs as [|r rs IH]; intros nms nulls w I; cbn [browser_cache_records]; [exact I|].
   destruct (nth_error (w_browsers w) j) as [b|] eqn:Nb; [|exact I].
-  destruct (if (r_type r =? T_PTR)%N then _ else _) as [[keep upd] tgt].
+  destruct (classify _ r) as [[keep upd] tgt].
   assert (I1 : SrvInv (fst (match tgt with
             | Some t => (mkWorld (w_caches w) (replace_nth j (mkBrowser (b_type b) (b_cache b) (b_services b) (b_hostnames b)
                                    (set_insert (bs_data t) (b_ptr_targets b))) (w_browsers w)) (w_jitter w),
